@@ -26,6 +26,7 @@ type crashHist struct {
 	reopen []bool              // clean close + reopen after statement i
 	class  string              // never always mixed timer
 	timer  bool                // the real 100 ms flush timer runs (no explicit flushes needed)
+	db     string              // the database's name as written in SQL ("" = d1)
 }
 
 func intv(i int64) proto.Val { return proto.Int(i) }
@@ -117,6 +118,11 @@ func buildCrashHist(c *core.Ctx, idx int) *crashHist {
 		h.MaxTables = r.Range(8, 12) // the catalog becomes a two-level tree
 	}
 	ch := &crashHist{idx: idx, name: "random"}
+	if idx%9 == 4 {
+		// a database whose name needs quotes: it begins with a dot, contains a
+		// blank or ends in one, is a keyword, or is not ASCII
+		ch.db = []string{`".d1"`, `"my db"`, `"d1 "`, `"select"`, `"дб"`, `".hidden.db"`}[(idx/9)%6]
+	}
 	n := r.Range(10, 60)
 	ch.noise = map[int]*proto.Stmt{}
 	ch.noiseQ = map[int]string{}
@@ -179,7 +185,7 @@ func (ch *crashHist) schedule(r *core.Rand, class int) {
 
 func checkC02(c *core.Ctx) []core.Floor {
 	c.Level = "fault_enumeration"
-	c.Rule = "seeded DDL/DML histories (10-60 statements, 1-3 tables; one statement in eight is followed by a statement that is refused - over-long names, duplicate table, type / range / size / column-count errors, repeated columns, CREATE DATABASE for the database in use, USE of a missing database - and must leave nothing behind, also nothing that only shows when later statements are rebuilt from the log) plus scenario templates; four histories in five have a second database next to theirs, created before or after it and sorting before or after it; EVERY statement boundary of every history is a crash point (image of the data directory with the timer off = state a kill -9 leaves); flush schedule per history: never / after every statement / random subset + clean reopen / the REAL 100 ms timer running (one history in eight: the image is taken right after the acknowledgement, never while a flush is writing, with pauses of more than a tick after some statements). Each image is recovered in a fresh process and SELECT * of every table + catalog is compared with the model after that statement; recovery is run a second time; then 3-8 further statements (with up to 2 more crash/recover cycles) are checked against the model incl. row-id rules. A sample is cross-validated with a real SIGKILL. Distinct = image (history, boundary, schedule); non-trivial = recovery actually replayed at least one log record."
+	c.Rule = "seeded DDL/DML histories (10-60 statements, 1-3 tables; one statement in eight is followed by a statement that is refused - over-long names, duplicate table, type / range / size / column-count errors, repeated columns, CREATE DATABASE for the database in use, USE of a missing database - and must leave nothing behind, also nothing that only shows when later statements are rebuilt from the log) plus scenario templates; one history in nine runs in a database whose name needs quotes (leading dot, blanks, a keyword, non-ASCII); four histories in five have a second database next to theirs, created before or after it and sorting before or after it; EVERY statement boundary of every history is a crash point (image of the data directory with the timer off = state a kill -9 leaves); flush schedule per history: never / after every statement / random subset + clean reopen / the REAL 100 ms timer running (one history in eight: the image is taken right after the acknowledgement, never while a flush is writing, with pauses of more than a tick after some statements). Each image is recovered in a fresh process and SELECT * of every table + catalog is compared with the model after that statement; recovery is run a second time; then 3-8 further statements (with up to 2 more crash/recover cycles) are checked against the model incl. row-id rules. A sample is cross-validated with a real SIGKILL. Distinct = image (history, boundary, schedule); non-trivial = recovery actually replayed at least one log record."
 	c.Assume = []string{"process-death crash model: completed write(2) calls survive, as the property states", "image = copy of data/ taken between statements with the flush timer off; cross-validated against real SIGKILL on a sample"}
 	drv := mustDriver(c, false)
 	nRandom, kill := 300, 20
@@ -242,17 +248,24 @@ func crashPhase1(c *core.Ctx, drv, dir string, ch *crashHist, withImages bool, k
 	if other != "" && ch.idx%2 == 0 {
 		add(proto.Op{K: "sql", SQL: proto.Text("CREATE DATABASE " + other)}, meta{kind: "other"})
 	}
-	add(proto.Op{K: "sql", SQL: "CREATE DATABASE d1"}, meta{kind: "other"})
+	db := "d1"
+	if ch.db != "" {
+		db = ch.db
+	}
+	add(proto.Op{K: "sql", SQL: proto.Text("CREATE DATABASE " + db)}, meta{kind: "other"})
 	if other != "" && ch.idx%2 == 1 {
 		add(proto.Op{K: "sql", SQL: proto.Text("CREATE DATABASE " + other)}, meta{kind: "other"})
 	}
-	add(proto.Op{K: "sql", SQL: "USE d1"}, meta{kind: "other"})
+	add(proto.Op{K: "sql", SQL: proto.Text("USE " + db)}, meta{kind: "other"})
 	for i, st := range ch.stmts {
 		add(proto.Op{K: "stmt", Stmt: st}, meta{kind: "stmt", i: i})
 		if ns := ch.noise[i]; ns != nil {
 			add(proto.Op{K: "stmt", Stmt: ns}, meta{kind: "noise", i: i})
 		}
 		if q := ch.noiseQ[i]; q != "" {
+			if ch.db != "" && strings.Contains(strings.ToLower(q), "database d1") {
+				q = "CREATE DATABASE " + ch.db
+			}
 			add(proto.Op{K: "sql", SQL: proto.Text(q)}, meta{kind: "noise", i: i})
 		}
 		if ch.flush[i] {
@@ -261,7 +274,7 @@ func crashPhase1(c *core.Ctx, drv, dir string, ch *crashHist, withImages bool, k
 		if ch.reopen[i] {
 			add(proto.Op{K: "close"}, meta{kind: "other"})
 			add(proto.Op{K: "session"}, meta{kind: "other"})
-			add(proto.Op{K: "sql", SQL: "USE d1"}, meta{kind: "other"})
+			add(proto.Op{K: "sql", SQL: proto.Text("USE " + db)}, meta{kind: "other"})
 		}
 		if killAfter == i {
 			add(proto.Op{K: "kill"}, meta{kind: "kill"})
@@ -354,7 +367,8 @@ func runCrashHist(c *core.Ctx, drv string, ch *crashHist, killEvery int) {
 			label: fmt.Sprintf("crash_after_%s_%s", ch.stmts[i].Kind, ch.class),
 			cont:  r.Range(3, 8),
 			seed:  core.SubSeed(c.Seed, "C02C", ch.idx*1000+i),
-			replay: map[string]interface{}{"history": ch.idx, "template": ch.name, "flush_class": ch.class, "crash_after_statement": i,
+			db:    ch.db,
+			replay: map[string]interface{}{"history": ch.idx, "template": ch.name, "flush_class": ch.class, "database": ch.db, "crash_after_statement": i,
 				"flush_after": ch.flush[:i+1], "reopen_after": ch.reopen[:i+1], "statements": stmtTexts[:i+1], "refused_statement_issued_after_statement": refused, "how": "run the statements (direct values) with the timer off, flushing where flagged, kill -9 after the last one, then InitStorage"},
 		}
 		if ch.timer {
@@ -378,7 +392,7 @@ func runCrashHist(c *core.Ctx, drv string, ch *crashHist, killEvery int) {
 			c.Inconclusive("real-kill", "the driver did not reach its kill point")
 			continue
 		}
-		rj := &crashJob{dir: kd, cands: []*model.DB{snaps[i]}, label: "real_kill", real: true, replay: jobs[0].replay}
+		rj := &crashJob{dir: kd, cands: []*model.DB{snaps[i]}, label: "real_kill", real: true, replay: jobs[0].replay, db: ch.db}
 		for _, j := range jobs {
 			if j.dir == imgDir(dir, i, "") {
 				rj.replay = j.replay
